@@ -1,7 +1,7 @@
 PROPERTY = "C15"
 LEVEL = "proof"
 LEAN_MODULES = ["CifModel.Props.C15"]
-REQUIRED = ["CifModel.C15_skip_depth_balanced", "CifModel.C15_skip_depth_nonneg", "CifModel.C15_skip_depth_cif", "CifModel.C15_stop_is_last", "CifModel.C15_end_ok", "CifModel.C15_positive_aborts", "CifModel.C15_skip_opens_region", "CifModel.C15_skipped_region_silent", "CifModel.C15_syntax_only_same_log", "CifModel.C15_value_mirror", "CifModel.C15_result_nonneg", "CifModel.C15_positive_aborts_local",
+REQUIRED = ["CifModel.C15_skip_depth_balanced", "CifModel.C15_skip_depth_nonneg", "CifModel.C15_skip_depth_cif", "CifModel.C15_stop_is_last", "CifModel.C15_end_ok", "CifModel.C15_positive_aborts", "CifModel.C15_skip_opens_region", "CifModel.C15_skipped_region_silent", "CifModel.C15_syntax_only_same_log", "CifModel.C15_value_mirror", "CifModel.C15_all_continue_mirror", "CifModel.C15_all_continue_mirror_parseCB", "CifModel.C15_result_nonneg", "CifModel.C15_positive_aborts_local",
             "CifModel.C15_loop_start_local", "CifModel.C15_cex_loop_start_pinned", "CifModel.C15_loop_start_code_returned"]
 GEN = ["ErrCodes"]
 FAMILIES = ["pcb"]
@@ -28,9 +28,8 @@ PARTIAL = [
     "else is stored as in an unfiltered parse' is only stated (C15_skip_semantics_rest_full) — correspondence + oracle",
     "C15_syntax_only_same_log is proved for handler programs that do not look at the (NULL in syntax-only mode) handles and "
     "under the hypothesis that the storing parse does not stop on a frame-nesting diagnostic (not well-formed under the options)",
-    "C15_all_continue_mirror is NOT proved as a theorem (stated as C15_all_continue_mirror_full over Doc / tokensOf / denote; "
-    "only its value level C15_value_mirror is proved: parse_value consumes exactly the tokens of a value and rebuilds it); "
-    "it is checked by the independent oracle of the pcb family on every run",
+    "C15_all_continue_mirror is proved for every well-formed abstract document over its layout-free token sequence (tokensOf) "
+    "and any fuel >= szDoc d + 1; the parseCB corollary carries the decidable hypothesis szDoc d + 1 <= fuelFor (tokensOf d)",
 ]
 LEVEL_TEXT = ("Partial proof about the executable token-level model ParseCB.parseCB (all token sequences, all handler "
               "programs): skip_depth balance of the value, item and packet-loop productions, non-negativity, local "
